@@ -332,6 +332,10 @@ func ruleIExact(c *engine.Context) *report.Rule {
 			case 0:
 				// nothing selected: the value must be out of range on both readings
 				ok = (hasN && loN.Sign() >= 0 && dGE(0)) || (hasN && hiN.Cmp(big.NewInt(-1)) <= 0 && hasT && hiT.Cmp(big.NewInt(-1)) <= 0)
+				// an empty array: every index is out of range (value >= 0 >= len, or value+len <= value <= -1)
+				if _, hiL, hasL := rg.Bounds(intarith.LinForm{Coef: map[string]int64{"L": 1}}); hasL && hiL.Sign() <= 0 {
+					ok = true
+				}
 				if !ok {
 					bad = "a path selects nothing although the index is not known to be out of range"
 				}
